@@ -15,9 +15,10 @@ MANIFEST = {
         "category": "model_checking",
         "text": "TLC enumerates every well-formed combination of lock clause (FOR UPDATE / FOR SHARE / LOCK IN SHARE MODE x "
                 "NOWAIT / SKIP LOCKED / OF tbl), master hint position and read_only probe for SELECT and SHOW under the full "
-                "product of 6 leading decorations x 3 keyword casings x 8 trailing decorations x 4 channels for the rw-split "
-                "user, and with at most one lexical decoration under every user-flag / check_select_lock / transaction-state "
-                "combination (quick: at most one non-default decoration or context field plus a seeded sample); on each "
+                "product of 6 leading decorations x 3 keyword casings x 8 trailing decorations x 5 channels for the rw-split "
+                "user, with at most one lexical decoration under every user-flag / check_select_lock / transaction-state "
+                "combination, and undecorated under every session history (keep-session namespace, earlier plain read, read "
+                "preceding in the same multi-statement text, rw flag changed by a namespace reload after connect) (quick: at most one non-default decoration or context field plus a seeded sample); on each "
                 "descriptor TLC checks that reject / must-use-master / replica-allowed partition the space, that a "
                 "transaction pins the master and that decorations and channel do not change the decision, and emits the "
                 "required decision; every descriptor is rendered to SQL and replayed on the real SessionExecutor with fake "
@@ -41,7 +42,10 @@ def run(ctx):
         "role observed = role (master/replica) of the fake pool whose Get served the statement; no Get = nothing to compare",
         "read-only users (rw_flag=1): all reads may go to replicas (design of the flag, TestCanExecuteFromSlave expects it)",
         "check_select_lock=off is set on the Namespace object directly; with it off a lock clause alone does not force the master",
-        "keep-session mode, monitor/statistic users and replica-failure fallback are not exercised",
+        "session history is part of the descriptor: keep-session namespace (the role of a kept connection is observed at "
+        "Execute), a plain read earlier in the session or earlier in the same multi-statement text, a real namespace reload "
+        "that changed the user's rw flag after the session connected; monitor/statistic users and replica-failure fallback "
+        "are not exercised",
     ]
     if ctx.replay:
         rec = ctx.read_ndjson(ctx.replay)[0]
